@@ -243,7 +243,24 @@ def rule_integer_types(ctx):
             except AbsRaise as raised:
                 return (key, "raises " + exc_name(raised.value), "create_table_statement raised")
             parts = fragments(statement) if not isinstance(statement, str) else [statement]
-            text = "".join(part if isinstance(part, str) else "<%s>" % part.value if isinstance(part, RInt) else "<?>" for part in parts)
+            shown = [part if isinstance(part, str) else "<%s>" % part.value if isinstance(part, RInt) else "<?>" for part in parts]
+            # "(%s, %s)" % (length, precision) arrives as the format text followed by its arguments (round 11: a
+            # refactoring from concatenation to formatting was reported as "decimal without a digit count" - false alarm)
+            resolved = []
+            position = 0
+            while position < len(shown):
+                part = shown[position]
+                placeholders = part.count("%s") + part.count("%d") if isinstance(parts[position], str) else 0
+                if placeholders and position + placeholders < len(shown) + 0 and len(shown) - position - 1 >= placeholders:
+                    arguments = shown[position + 1: position + 1 + placeholders]
+                    for argument in arguments:
+                        index_s, index_d = part.find("%s"), part.find("%d")
+                        index = min(i for i in (index_s, index_d) if i >= 0)
+                        part = part[:index] + argument + part[index + 2:]
+                    position += placeholders
+                resolved.append(part)
+                position += 1
+            text = "".join(resolved)
             column = text[text.index("(") + 1:].strip()
             column = column[: column.rindex(")")].strip() if ")" in column else column
             words = column.replace(",", " ").split()
